@@ -572,9 +572,66 @@ fn run(line: &str) -> String {
     format!("{} | {} | {}", outcome, logs.join(" "), allocs)
 }
 
+/// Runs one `#[divan::bench]` function of the real-macro binary `hx-round-e2e` (next to this
+/// executable) in a subprocess: `bench=<name> T=<threads> S=<sample count> n=<sample size> slow=<thread>`.
+/// Prints `<outcome> | <global log> |` (the first clock read of the caller, `initial_start`, removed).
+fn run_e2e(line: &str) -> String {
+    let mut bench = "extern_c";
+    let (mut t, mut s, mut n, mut slow, mut hang_ms) = ("2", "2", "1", "-1", 20000u64);
+    for tok in line.split(' ') {
+        let Some((k, val)) = tok.split_once('=') else { continue };
+        match k {
+            "bench" => bench = val,
+            "T" => t = val,
+            "S" => s = val,
+            "n" => n = val,
+            "slow" => slow = val,
+            "hang_ms" => hang_ms = val.parse().unwrap(),
+            _ => {}
+        }
+    }
+    let exe = std::env::current_exe().expect("exe").with_file_name("hx-round-e2e");
+    let mut child = std::process::Command::new(exe)
+        .arg(format!("hx_round_e2e::{bench}"))
+        .args(["--exact", "--bench"])
+        .args(["--sample-count", s, "--sample-size", n, "--threads", t])
+        .args(["--timer", "tsc", "--color", "never"])
+        .env("HX_SLOW", slow)
+        .stdin(std::process::Stdio::null())
+        .stdout(std::process::Stdio::piped())
+        .stderr(std::process::Stdio::null())
+        .spawn()
+        .expect("spawn hx-round-e2e");
+    // watchdog
+    let start = std::time::Instant::now();
+    loop {
+        match child.try_wait() {
+            Ok(Some(_)) => break,
+            Ok(None) if start.elapsed() > Duration::from_millis(hang_ms) => {
+                let _ = child.kill();
+                let _ = child.wait();
+                return "hang |  | ".to_string();
+            }
+            Ok(None) => std::thread::sleep(Duration::from_millis(5)),
+            Err(e) => return format!("panic-other wait {e} |  | "),
+        }
+    }
+    let out = child.wait_with_output().expect("output");
+    let text = String::from_utf8_lossy(&out.stdout);
+    let Some(logline) = text.lines().find_map(|l| l.strip_prefix("HXLOG")) else {
+        return format!("panic-other exit {:?} |  | ", out.status.code());
+    };
+    let mut toks: Vec<&str> = logline.split(' ').filter(|x| !x.is_empty()).collect();
+    if toks.first() == Some(&"0.s") {
+        toks.remove(0);
+    }
+    format!("ok | {} | ", toks.join(" "))
+}
+
 fn dispatch(mode: &str, line: &str) -> String {
     match mode {
         "run" => run(line),
+        "e2e" => run_e2e(line),
         _ => panic!("unknown mode {mode}"),
     }
 }
